@@ -9,8 +9,11 @@ Tie = fault enumeration on the REAL code (DESIGN 4.4/4.5, section 6 C08):
     gives the effect sequence of every step;
   * for EVERY audited effect index k of the history (hence every step kind that occurs: zero-swap
     accept, shooting accept, wire-fencing accept, reject, the delete_old block, the final write_toml)
-    a child is killed with os._exit just before effect k, and for every open-for-write also right
-    after the open (file created / truncated) and after half of the bytes;
+    a child is killed with os._exit just before effect k, right AFTER the real call of effect k has
+    returned (wrappers around os.mkdir/rmdir/remove/unlink/rename/replace; shutil.move and os.makedirs go
+    through them) — data written to a file that is still open is then lost with the process, as in a
+    hard kill —, and for every open-for-write also right after the open (file created / truncated) and
+    after half of the bytes (written at the close of that file, wherever the close happens);
   * the tree left behind is compared key by key with the Lean model's `crashStep` (Model/Fs.lean);
   * then a fresh child restarts with the real entry point (`setup_config("restart.toml")` +
     `scheduler`) and continues to the end; outcome class, active set, data rows, re-issued jobs are
@@ -1087,7 +1090,7 @@ def second_life(ctx, seg, c, work, hist_id, n2, limit2):
 def run(ctx):
     sim.preload()
     base = tempfile.mkdtemp(prefix="c08-", dir="/var/tmp")
-    ctx.rule = ("one crash case = (history, process life, audited effect index k, mode before/after-open/half-written); "
+    ctx.rule = ("one crash case = (history, process life, audited effect index k, mode before / after the call returned / after-open / half-written); "
                 "every audited main-process effect of every step of each history is a case; distinct by that tuple; "
                 "a case is non-trivial when a restart record exists or is being written")
     ctx.assumptions += [
@@ -1180,6 +1183,10 @@ def replay(ctx, obj):
                     return 1
         print("restart.toml on the crashed tree:", tr if not isinstance(tr, dict) else {k: tr[k] for k in ("cstep", "active")})
         print("restart:", res.get("outcome"), res.get("phase"), res.get("error"))
+        if tr is None and len(r["chain"]) == 1 and res.get("outcome") == "refuses":
+            # as in run(): no restart.toml has been completed yet, there is nothing to restart from
+            print("no restart record on disk yet (crash inside the first step): not a restart case")
+            return 0
         if res.get("outcome") != "starts" or res.get("phase") != "finished":
             return 1
         ok, why, _ = final_rows_ok(tree)
